@@ -807,7 +807,9 @@ impl Translator {
                             self.emit(st, Instr::SubInt(Reg::Top, Reg::Top, Reg::Top))
                         }
                         SolvedType::Float => {
-                            self.emit(st, Instr::PushFloat("0.0".into()));
+                            // subtract from -0.0, not 0.0: `0.0 - x` is +0.0 for x = +0.0, while
+                            // `-0.0 - x` is the IEEE negation of every x (zeros included)
+                            self.emit(st, Instr::PushFloat("-0.0".into()));
                             self.translate_expr(right, offset_table, mono, st);
                             self.emit(st, Instr::SubFloat(Reg::Top, Reg::Top, Reg::Top))
                         }
